@@ -117,7 +117,7 @@ def injection_program(rng: random.Random) -> list[dict[str, Any]]:
         b["catch"] = True
         if b["kind"] == "ascope":
             if rng.random() < 0.7:
-                b["disposables"] = [{"yield": [], "enter": rng.choice(["ok", "gate"]), "exit": rng.choice(["ok", "gate"])} for _ in range(rng.randint(1, 2))]
+                b["disposables"] = [{"yield": [], "enter": rng.choice(["ok", "gate"]), "exit": rng.choice(["ok", "gate"]), "spawn": rng.random() < 0.25} for _ in range(rng.randint(1, 2))]
             if rng.random() < 0.7:
                 b["body"].append({"op": "spawn", "via": "ctx", "name": f"{b['name']}.k", "owner": b["name"], "body": [{"op": "gate", "label": f"{b['name']}.k"}]})
         if rng.random() < 0.5:
@@ -125,10 +125,10 @@ def injection_program(rng: random.Random) -> list[dict[str, Any]]:
     return prog
 
 
-def run_once(prog: list[dict[str, Any]], prefix: list[int], policy: Any, target: int | None = None, rng_seed: int = 0) -> dict[str, Any]:
+def run_once(prog: list[dict[str, Any]], prefix: list[int], policy: Any, target: int | None = None, rng_seed: int = 0, after_idles: int = 0) -> dict[str, Any]:
     root = logging.getLogger()
     out: dict[str, Any] = {}
-    inj = Injector(target)
+    inj = Injector(target, after_idles)
     chooser = Chooser(prefix, policy)
 
     async def main(loop: Any) -> None:
@@ -153,7 +153,7 @@ def run_once(prog: list[dict[str, Any]], prefix: list[int], policy: Any, target:
     def hook(loop: Any) -> Any:
         sched = Sched(loop, chooser)
         loop.W = World(loop, sched)
-        return loop.W.idle
+        return lambda timeout: inj.on_idle() or loop.W.idle(timeout)
 
     lvl = root.level
     root.setLevel(logging.DEBUG)
@@ -256,20 +256,24 @@ def explore_injection(R: Recorder, prog: list[dict[str, Any]], rng: random.Rando
     if base["status"] != "ok":
         return
     n = base["inj"].points
-    for k in range(n):
-        out = run_once(prog, choices, "first", target=k)
+    for k, j in [(k, j) for k in range(n) for j in (0, 1, 2)]:
+        out = run_once(prog, choices, "first", target=k, after_idles=j)
         inj: Injector = out["inj"]
+        if j and not inj.fired:
+            continue
         if not (inj.fired and inj.delivered):
             R.count("injections_not_delivered")
             continue
+        if j:
+            R.count("delayed_injections")
         R.count("injections_delivered")
         R.count(f"injected_in_{inj.where}")
         W: World = out["W"]
         # the block that caught the cancellation is the faulty block
         blk = next((name for name, exc in W.caught.items() if isinstance(exc, asyncio.CancelledError)), None)
         meta = {"fault": "injection", "block": blk, "phase": inj.where, "k": k}
-        R.case((shape_key(prog), tuple(choices), k), nontrivial=True)
-        judge(R, prog, meta, out, {"program": prog, "meta": meta, "choices": choices, "k": k})
+        R.case((shape_key(prog), tuple(choices), k, j), nontrivial=True)
+        judge(R, prog, meta, out, {"program": prog, "meta": meta, "choices": choices, "k": k, "after_idles": j})
 
 
 def run(R: Recorder, tier: str, seed: int, shard: int, nshards: int) -> None:
@@ -289,7 +293,7 @@ def run(R: Recorder, tier: str, seed: int, shard: int, nshards: int) -> None:
 
 
 def replay(R: Recorder, rec: dict[str, Any]) -> None:
-    out = run_once(rec["program"], rec["choices"], "first", target=rec.get("k"))
+    out = run_once(rec["program"], rec["choices"], "first", target=rec.get("k"), after_idles=rec.get("after_idles", 0))
     judge(R, rec["program"], rec["meta"], out, rec)
     W: World = out["W"]
     print("program outcome:", out.get("program"), "status:", out["status"])
